@@ -64,6 +64,9 @@ def render(p, wrap_class=None):
         elif ctx == "arg":
             lines.append("r%d = [%s]" % (i, call))
             info["site_rows"].append(len(lines))
+        elif ctx == "twice":        # two call sites of the same method on one row
+            lines.append("r%d = [%s, %s]" % (i, call, call))
+            info["site_rows"].append(len(lines))
         elif ctx == "block":
             lines += ["[%s].each do |bv%d|" % (LIT[s["c"]], i), "  %s(bv%d)" % (s["callee"], i), "end"]
             info["site_rows"].append(len(lines) - 1)
